@@ -9,6 +9,10 @@ CLAIMED = {
    "Structural necessary conditions of determinism/non-interference decided on every run from the typed program: no write to package-level memory outside initialisers and no goroutine (whole-module SSA effect analysis closed over the VTA call graph), every range-over-map loop classified commutative / sorted-after / justified, clone functions field-complete. This is the level a static argument can reach: it removes the classes of cross-call state and map-order dependence; it does not prove byte equality of outputs.",
    "Trusted: go/types, go/ssa, VTA call graph; callee side effects inside map-range bodies are tracked only for statement-level calls; float arithmetic and the standard library are assumed deterministic; default (!ocr) build.",
    "SSA effect analysis + AST loop classification + field-exhaustiveness", "DESIGN.md §4 C03"),
+ "C08": ("proof",
+   "Proof of the transformer clause: for every operator in the property's quantifier the implemented state transformer equals the ISO 32000 one as polynomials over the rationals in the pre-state cells and operands (straight-line SSA value numbering with callees inlined; every cell of the graphics state is compared, including the frame cells that must not change), save/restore is field-complete over pointer-free fields, and each operator case binds operand k to argument k in both interpreters. By induction over operator sequences this covers all programs, matrices and nesting depths; what is assumed is real (not float) arithmetic.",
+   "Trusted: go/ssa construction, the hand-written ISO 32000 specification polynomials in rules/c08.go, exact-real reading of float64; glyph advances (Tj/TJ) and rise scaling are outside the clause.",
+   "polynomial value numbering of SSA (abstract interpretation over Q[x]) + dominance/dataflow binding checks", "DESIGN.md §4 C08"),
 }
 
 NOT_BUILT = "rules for this property are not built yet in this revision of /verif (see DESIGN.md §4 for the plan)"
